@@ -1,7 +1,7 @@
 (** C14: the statements of Props/Properties_C14.v assembled from the per-function results. *)
 From Qv Require Import Common.Bytes Gen.GenAddr Model.InetPton Model.Addr Spec.AddrSpec
   Proofs.AddrTables Proofs.CStrLemmas Proofs.DomainProofs Proofs.LocalProofs Proofs.ParseaddrProofs
-  Proofs.XtextProofs Proofs.AddrsyntaxProofs.
+  Proofs.XtextProofs Proofs.AddrsyntaxProofs Proofs.AddrWrites.
 
 Local Arguments N.eqb : simpl never.
 
@@ -99,6 +99,10 @@ Proof.
   split; [destruct (xtextlen_spec pton4 pton6 s rest Hs) as (n & -> & _); reflexivity|].
   destruct (addrparse_spec pton4 pton6 s rest flags Hs) as (o & -> & _); reflexivity.
 Qed.
+
+Theorem thm_writes pton4 pton6 mem0 flags r :
+  addrsyntax pton4 pton6 mem0 flags = Ok r -> nulw mem0 (as_mem r) /\ length (as_mem r) = length mem0.
+Proof. exact (addrsyntax_nulw pton4 pton6 mem0 flags r). Qed.
 
 (* ------------------------------------------------------------------ the oracle contract and what follows from it *)
 
